@@ -20,7 +20,7 @@ const packThreshold = 512 << 10 // documented: files under this size are not pac
 type fileSpec struct {
 	Name    string `json:"name"`
 	Size    int    `json:"size"`
-	Content string `json:"content"` // random | periodic | zeros | as:<name> (same bytes as another file of the case) | ext:<name> (that file's bytes followed by Size fresh random bytes) | parts:<shape> (hand-written file schema with a part that uses only a prefix of its blob, see partsFile)
+	Content string `json:"content"` // parts:many:<n> (hand-written schema over n equal chunks) | random | periodic | zeros | as:<name> (same bytes as another file of the case) | ext:<name> (that file's bytes followed by Size fresh random bytes) | parts:<shape> (hand-written file schema with a part that uses only a prefix of its blob, see partsFile)
 	Period  int    `json:"period,omitempty"`
 	Order   string `json:"order,omitempty"` // overrides the case's upload order for this file
 }
@@ -184,6 +184,9 @@ func genContent(rng *rand.Rand, fs fileSpec, prev map[string][]byte) []byte {
 //	short-twice            c0 B:n c1 B:n c2
 func partsFile(rng *rand.Rand, fs fileSpec) (content []byte, fileRef blob.Ref, blobs []sto.Blob, err error) {
 	shape := strings.TrimPrefix(fs.Content, "parts:")
+	if strings.HasPrefix(shape, "many:") {
+		return manyPartsFile(rng, fs)
+	}
 	unit := fs.Size / 5
 	if unit < 4096 {
 		return nil, blob.Ref{}, nil, fmt.Errorf("file too small for %q", fs.Content)
@@ -232,6 +235,40 @@ func partsFile(rng *rand.Rand, fs fileSpec) (content []byte, fileRef blob.Ref, b
 			seen[p.b.Ref] = true
 			blobs = append(blobs, p.b)
 		}
+	}
+	m := schema.NewFileMap(fs.Name)
+	if err := m.PopulateParts(int64(len(content)), bps); err != nil {
+		return nil, blob.Ref{}, nil, err
+	}
+	js, err := m.JSON()
+	if err != nil {
+		return nil, blob.Ref{}, nil, err
+	}
+	fb := sto.FromBytes([]byte(js))
+	return content, fb.Ref, append(blobs, fb), nil
+}
+
+// manyPartsFile ("parts:many:<n>") writes a file schema blob by hand whose flat part list names n
+// data blobs of fs.Size/n random bytes each, every part covering its whole blob.  With a forced
+// maximum zip size between one and two such chunks the packer stores one zip per chunk: a file
+// spanning n zips.
+func manyPartsFile(rng *rand.Rand, fs fileSpec) (content []byte, fileRef blob.Ref, blobs []sto.Blob, err error) {
+	var n int
+	if _, err := fmt.Sscanf(fs.Content, "parts:many:%d", &n); err != nil || n < 2 {
+		return nil, blob.Ref{}, nil, fmt.Errorf("bad content %q", fs.Content)
+	}
+	unit := fs.Size / n
+	if unit < 4096 {
+		return nil, blob.Ref{}, nil, fmt.Errorf("file too small for %q", fs.Content)
+	}
+	var bps []schema.BytesPart
+	for i := 0; i < n; i++ {
+		d := make([]byte, unit)
+		rng.Read(d)
+		b := sto.FromBytes(d)
+		content = append(content, d...)
+		bps = append(bps, schema.BytesPart{Size: uint64(unit), BlobRef: b.Ref})
+		blobs = append(blobs, b)
 	}
 	m := schema.NewFileMap(fs.Name)
 	if err := m.PopulateParts(int64(len(content)), bps); err != nil {
